@@ -214,6 +214,61 @@ def r16_15(prog: Program, rep):
         raise AnalysisError(f"expected >= 6 (writer, direction) pairs in DiskRefsContainer, found {n}")
 
 
+def r16_16(prog: Program, rep):
+    """TABLE-AGREE, reftable ref records: the suffix_and_type field (name suffix length << 3 | value type) is written and read with
+    ONE codec that is total over the lengths a ref name can have - git's reftable varint, the offset encoding of varint.c (most
+    significant 7-bit group first, every continuation group biased by one).  A fixed two-byte form is only right below 256, i.e. for
+    suffixes shorter than 32 bytes: longer names were acknowledged and lost."""
+    m = prog.module("dulwich/reftable.py")
+    rr = m.funcs.get("RefRecord.encode"), m.funcs.get("RefRecord.decode")
+    if None in rr:
+        raise AnalysisError("reftable.RefRecord.encode/decode not found")
+
+    def field_codec(fn, kind):
+        # the function whose result carries / reads the field: a call whose argument shifts the suffix length by 3, or the first
+        # call that reads from the stream into a name containing 'suffix'
+        for c in ast.walk(fn.node):
+            if isinstance(c, ast.Call) and isinstance(c.func, ast.Name) and c.func.id in m.funcs:
+                if kind == "enc" and any(isinstance(y, ast.BinOp) and isinstance(y.op, ast.LShift) and isinstance(y.right, ast.Constant) and y.right.value == 3
+                                         for a_ in c.args for y in ast.walk(a_)):
+                    return m.funcs[c.func.id]
+                if kind == "dec":
+                    st = m.enclosing_stmt(c)
+                    if isinstance(st, ast.Assign) and isinstance(st.targets[0], ast.Name) and "suffix" in st.targets[0].id and "type" in st.targets[0].id:
+                        return m.funcs[c.func.id]
+        return None
+    enc, dec = field_codec(rr[0], "enc"), field_codec(rr[1], "dec")
+    if enc is None or dec is None:
+        raise AnalysisError("reftable: the codec functions of the suffix_and_type field not found")
+    loops_e = [x for x in ast.walk(enc.node) if isinstance(x, (ast.While, ast.For))]
+    bias_e = any(isinstance(x, ast.AugAssign) and isinstance(x.op, ast.Sub) and isinstance(x.value, ast.Constant) and x.value.value == 1 for l in loops_e for x in ast.walk(l))
+    src_e = norm(enc.node, 100000)
+    msb_e = "reversed(" in src_e or ".insert(0," in src_e or "[::-1]" in src_e
+    rep.ob("R16.16", m.rel, enc.qual, "the suffix_and_type writer is a varint loop (total over name lengths): msb first, continuation groups biased by one",
+           bool(loops_e) and bias_e and msb_e,
+           f"loop={bool(loops_e)} bias={bias_e} msb-first={msb_e}: a fixed-width form cannot hold (len(name) << 3 | type) for names of 32 bytes and more - "
+           "the record is written in a form the reader cannot decode (the write is acknowledged, the ref does not exist) or the encoder raises", enc.node.lineno)
+    loops_d = [x for x in ast.walk(dec.node) if isinstance(x, ast.While)]
+    # the per-byte update of the accumulator, composed whatever way it is spelled (as R11.5 does for the index codec)
+    from sa.common import compose_update, expr_key
+    from sa.consts import Folder
+    import re as _re
+    F_ = Folder(prog, m)
+    step = False
+    for l in loops_d:
+        accs = {(s_.targets[0] if isinstance(s_, ast.Assign) else s_.target).id for s_ in l.body if isinstance(s_, (ast.Assign, ast.AugAssign))
+                and isinstance((s_.targets[0] if isinstance(s_, ast.Assign) else s_.target), ast.Name)
+                and (any(isinstance(y, ast.BinOp) and isinstance(y.op, ast.LShift) for y in ast.walk(s_)) or (isinstance(s_, ast.AugAssign) and isinstance(s_.op, ast.LShift)))}
+        for acc in accs:
+            e_ = compose_update([s_ for s_ in l.body if isinstance(s_, (ast.Assign, ast.AugAssign))
+                                 and norm(s_.targets[0] if isinstance(s_, ast.Assign) else s_.target) == acc], acc)
+            step = step or bool(_re.fullmatch(r"Add\(BitAnd\(127,\w+\),LShift\(Add\(1," + acc + r"\),7\)\)", expr_key(e_, F_)))
+    growing = any(isinstance(x, ast.BinOp) and isinstance(x.op, ast.LShift) and isinstance(x.right, ast.Name) for x in ast.walk(dec.node))
+    rep.ob("R16.16", m.rel, dec.qual, "the suffix_and_type reader inverts the writer: per byte ((acc + 1) << 7) + (byte & 0x7f), no second format guessed",
+           bool(loops_d) and step and not growing,
+           f"loop={bool(loops_d)} biased-step={step} little-endian-shift={growing}: reader and writer of the field disagree for some lengths", dec.node.lineno)
+
+
 def r16_14(prog: Program, rep):
     """add_if_new of the files backend: the existence test made under the lock looks the RESOLVED name up in packed-refs (the name
     whose file is locked), not the name the caller passed - through HEAD that is the symbolic ref, which is never packed."""
@@ -239,11 +294,13 @@ def run(prog: Program, rep, tier="quick"):
     rep.rule("R16.4", "writable backends override the abstract operations; overrides accept the base signature")
     rep.rule("R16.5", "TABLE-AGREE: check_ref_format tests every rule of git-check-ref-format(1), each on a path to False")
     rep.rule("R16.14", "add_if_new looks the resolved name up in packed-refs")
+    rep.rule("R16.16", "TABLE-AGREE: reftable suffix_and_type is written and read with one total varint codec (git's offset encoding)")
     rep.rule("R16.15", "SIBLINGS-AGREE: every ref-file write of the files backend refuses names colliding with a PACKED ref, upwards and downwards")
     rep.rule("R16.13", "SIBLINGS-AGREE: every ref-file write of the files backend first removes empty directories in the way and creates the parent directories")
     r16_13(prog, rep)
     r16_14(prog, rep)
     r16_15(prog, rep)
+    r16_16(prog, rep)
     rep.rule("R16.12", "pack_refs never packs a symbolic ref (packing refs changes nothing observable)")
     r16_12(prog, rep)
     rep.rule("R16.11", "add_if_new decides existence through the backend's merged read and the resolved value; namespace views answer in their own names")
